@@ -19,6 +19,14 @@ THEOREMS = ['GV.TI.' + t for t in (
     'intersection_den', 'union_hull', 'union_covers_left', 'union_minimal', 'subset_antisymm', 'eq_iff',
     'eq_imp_hash', 'mk_rejects')]
 
+# second tie: time.py translated to Lean on every run, proved equal to the model (see common.Run.source_tie)
+SRC_MODULE = 'GeoVerif.Props.C06Src'
+SRC_THEOREMS = ['GV.C06Src.' + t for t in (
+    'isInstant_eq', 'elapsed_eq', 'eq_eq', 'hashKey_eq', 'containsDt_eq', 'issubset_eq', 'issuperset_eq', 'containsTI_eq',
+    'isdisjoint_eq', 'intersectsDt_eq', 'intersects_eq', 'init_eq', 'initTd_eq', 'intersection_eq', 'union_eq', 'copy_eq',
+    'src_mem_iff', 'src_issubset_iff', 'src_isdisjoint_iff', 'src_intersects_iff', 'src_intersects_symm',
+    'src_intersection_den', 'src_intersection_none_iff', 'src_init_rejects', 'src_eq_iff', 'src_eq_imp_hash')]
+
 EPOCH = datetime(1970, 1, 1, tzinfo=timezone.utc)
 BASE_US = (datetime(2020, 1, 1, tzinfo=timezone.utc) - EPOCH) // timedelta(microseconds=1)
 
@@ -161,6 +169,7 @@ def placement(x, y):
 
 def check(run):
     run.prove(MODULE, THEOREMS)
+    run.source_tie(['SrcTime'], SRC_MODULE, SRC_THEOREMS)
     run.corpus(impl, spec)
     rng = run.rng
     tick = 1_000_000
